@@ -316,7 +316,15 @@ Example: `$var = (const) $(my_int)`""",
                     f"scoreboard players operation {variable_.content} {operator_.content}= {number_.content}"
                 )
                 continue
-            number = int(float(number_.content))
+            try:
+                number = int(float(number_.content))
+            except (ValueError, OverflowError):
+                # `1e999`, `nan`
+                raise JMCSyntaxException(
+                    f"Constant ({number_.content}) is not a finite number",
+                    tokens[2],
+                    tokenizer,
+                )
             if operator_.content in ("+", "-") and number == -2147483648:
                 # -2147483648 cannot be negated into a valid add/remove amount:
                 # it goes through the integer constant like `*=` does
